@@ -957,6 +957,114 @@ theorem pgoNext_is_head (b : Bytes) (st : Nat × Nat) :
     rw [pgoLoop_fuel b r.2.2 (r.2.2 + 1) n r.2.1 (by omega) hlt, hl']
     rfl
 
+/-- every item takes at least three words of the window: the sequence of remaining items is short -/
+theorem pgoItemsFrom_length_le (b : Bytes) (st : Nat × Nat) :
+    ∃ l, pgoItemsFrom b st = .ok l ∧ 3 * l.length ≤ st.2 := by
+  -- measure: the window length strictly decreases by ≥ 3 with every `Some`
+  have key : ∀ (n : Nat) (st : Nat × Nat), st.2 = n → ∃ l, pgoItemsFrom b st = .ok l ∧ 3 * l.length ≤ st.2 := by
+    intro n
+    induction n using Nat.strongRecOn with
+    | ind n ih =>
+      intro st hn
+      obtain ⟨l, r, hl, hr, hhead, htail⟩ := pgoNext_is_head b st
+      refine ⟨l, hl, ?_⟩
+      cases l with
+      | nil => simp
+      | cons x xs =>
+        -- the step consumed at least 3 words
+        obtain ⟨r', hr', _, hsome⟩ := pgoNext_ok b st
+        rw [hr] at hr'
+        cases hr'
+        obtain ⟨hlt, hend, hoff⟩ := hsome x (by rw [hhead]; rfl)
+        obtain ⟨l', hl', hle⟩ := ih r.2.2 (by omega) r.2 rfl
+        rw [htail] at hl'
+        cases hl'
+        -- words consumed: st.2 - r.2.2 ≥ 3 because the offset moved by 4 * (2 + len + 1) ≥ 12
+        have h3 : r.2.2 + 3 ≤ st.2 := by
+          unfold pgoNext at hr
+          simp only at hr
+          by_cases hge : st.2 ≥ 3
+          · rw [if_pos hge] at hr
+            cases hc : cstrFromBytes b (st.1 + 8) (4 * (st.2 - 2)) with
+            | none => rw [hc] at hr; cases hr; simp at hhead
+            | some name =>
+              rw [hc] at hr
+              simp only at hr
+              split at hr
+              · cases hr
+              · cases hr; simp only; omega
+          · rw [if_neg hge] at hr; cases hr; simp at hhead
+        simp only [List.length_cons, List.tail_cons] at hle ⊢
+        omega
+  exact key st.2 st rfl
+
+/-- provided `nth`: element `k` of the remaining items, the iterator left behind it -/
+theorem pgoNth_spec (b : Bytes) : ∀ (k : Nat) (st : Nat × Nat) (l : List PgoItem), pgoItemsFrom b st = .ok l →
+    ∃ st', pgoNth b k st = .ok (l[k]?, st') ∧ pgoItemsFrom b st' = .ok (l.drop (k + 1)) := by
+  intro k
+  induction k with
+  | zero =>
+    intro st l hl
+    obtain ⟨l', r, hl', hr, hhead, htail⟩ := pgoNext_is_head b st
+    rw [hl] at hl'; cases hl'
+    refine ⟨r.2, ?_, ?_⟩
+    · rw [pgoNth, hr]
+      obtain ⟨r1, r2⟩ := r
+      simp only at hhead
+      subst hhead
+      cases l <;> rfl
+    · rw [htail]; cases l <;> rfl
+  | succ k ih =>
+    intro st l hl
+    obtain ⟨l', r, hl', hr, hhead, htail⟩ := pgoNext_is_head b st
+    rw [hl] at hl'; cases hl'
+    rw [pgoNth, hr]
+    simp only [Out.bind_ok]
+    cases l with
+    | nil =>
+      have hn : r.1 = none := hhead
+      rw [hn]
+      exact ⟨r.2, rfl, by simpa using htail⟩
+    | cons x xs =>
+      have hs : r.1 = some x := hhead
+      rw [hs]
+      simp only
+      obtain ⟨st', h1, h2⟩ := ih r.2 xs (by simpa using htail)
+      exact ⟨st', by simpa using h1, by simpa using h2⟩
+
+theorem pgoCountLoop_spec (b : Bytes) : ∀ (fuel : Nat) (st : Nat × Nat) (acc : Nat) (l : List PgoItem),
+    pgoItemsFrom b st = .ok l → l.length < fuel → pgoCountLoop b fuel st acc = .ok (acc + l.length) := by
+  intro fuel
+  induction fuel with
+  | zero => intro st acc l _ h; omega
+  | succ fuel ih =>
+    intro st acc l hl hf
+    obtain ⟨l', r, hl', hr, hhead, htail⟩ := pgoNext_is_head b st
+    rw [hl] at hl'; cases hl'
+    rw [pgoCountLoop, hr]
+    simp only [Out.bind_ok]
+    cases l with
+    | nil =>
+      have hn : r.1 = none := hhead
+      rw [hn]; rfl
+    | cons x xs =>
+      have hs : r.1 = some x := hhead
+      rw [hs]
+      simp only
+      rw [ih r.2 (acc + 1) xs (by simpa using htail) (by simp at hf; omega)]
+      simp only [List.length_cons]
+      congr 1
+      omega
+
+/-- provided `count`: the number of remaining items (the loop terminates: `C18_pgo_count_le`) -/
+theorem pgoCount_spec (b : Bytes) (st : Nat × Nat) (l : List PgoItem) (hl : pgoItemsFrom b st = .ok l) :
+    pgoCount b st = .ok l.length := by
+  obtain ⟨l', hl', hle⟩ := pgoItemsFrom_length_le b st
+  rw [hl] at hl'; cases hl'
+  unfold pgoCount
+  rw [pgoCountLoop_spec b (st.2 + 1) st 0 l hl (by omega)]
+  simp
+
 /-! ### pdb_file_name -/
 
 theorem pdbFileNameFrom_some (v : View) (t : Ref) :
